@@ -4,6 +4,7 @@ import (
 	"go/ast"
 	"go/types"
 	"regexp"
+	"strings"
 
 	"verifcheck/an"
 )
@@ -372,8 +373,10 @@ func init() {
 		c05truncationBound(c)
 		c05shadowedError(c)
 		c05applyInOrder(c)
+		c05healthyGroupServed(c)
+		c05toleranceTimer(c)
 	}
-	All["C05"].Rules += " R7 R8 R9 R10"
+	All["C05"].Rules += " R7 R8 R9 R10 R11 R12"
 }
 
 // c05shadowedError — C05.R9.  A write is acknowledged when the chain coordinator → store → raft
@@ -573,4 +576,116 @@ func c05applyInOrder(c *an.Ctx) {
 	}
 	r.AddSites(n)
 	r.Floor(1, "apply call sites")
+}
+
+// c05healthyGroupServed — C05.R11.  Reads and writes of a replicated database go to the
+// shards returned by getAliveShardsForRepDB.  A replica group whose status is Health is served
+// by its master partition, whatever that partition's own status field says at the moment:
+// between the meta command that marks a dead store's partitions Offline and the one that
+// installs the new master, the group is still Health with the old master.  If the master is
+// filtered out by its status in that window, the group vanishes from the list — queries
+// return nothing without an error and an overwrite is acknowledged into another group.
+func c05healthyGroupServed(c *an.Ctx) {
+	const MC = "lib/metaclient"
+	r := c.Rule("C05.R11", "K-PREDSHAPE", MC+":(*Client).getAliveShardsForRepDB — the master partition of a Health replica group is always selected (no further condition on that path)")
+	f := fn(r, MC+":Client.getAliveShardsForRepDB")
+	if f == nil {
+		return
+	}
+	app := f.Find(an.MNode("aliveShardIdxes = append(aliveShardIdxes, i)", func(g *an.Fn, m ast.Node) bool {
+		as, ok := m.(*ast.AssignStmt)
+		if !ok || len(as.Rhs) != 1 {
+			return false
+		}
+		ce, ok := ast.Unparen(as.Rhs[0]).(*ast.CallExpr)
+		if !ok {
+			return false
+		}
+		id, ok := ce.Fun.(*ast.Ident)
+		return ok && id.Name == "append"
+	}))
+	r.AddSites(app.Len())
+	if app.Len() == 0 {
+		r.Fail(f.Name+": selection", c.P.Pos(f.Body.Pos()), "no shard index is appended any more")
+		return
+	}
+	start := f.LoopBodyEntry(app.List[0])
+	if start < 0 {
+		r.Fail(f.Name+": loop", c.P.Pos(f.Body.Pos()), "the selection is no longer inside the loop over the owners of a shard")
+		return
+	}
+	atoms := map[string]bool{}
+	f.AtomRename = func(k string) string {
+		switch {
+		case strings.Contains(k, "meta.Health==") || strings.HasSuffix(k, "==meta.Health"):
+			return "HEALTH"
+		case strings.Contains(k, ".IsMasterPt("):
+			return "MASTER"
+		}
+		return k
+	}
+	var reach []an.Formula
+	for _, s := range app.List {
+		pf, err := f.PathFormula(start, s.V, atoms)
+		if err != nil {
+			f.AtomRename = nil
+			r.Fail(f.Name+": paths", c.P.Pos(s.Node.Pos()), "cannot enumerate the paths to the selection: %v", err)
+			return
+		}
+		reach = append(reach, pf)
+	}
+	f.AtomRename = nil
+	if !atoms["HEALTH"] || !atoms["MASTER"] {
+		r.Fail(f.Name+": conditions", c.P.Pos(f.Body.Pos()), "the selection no longer tests the group status Health and IsMasterPt")
+		return
+	}
+	hm := an.And(an.AtomF("HEALTH"), an.AtomF("MASTER"))
+	if ok, diff := an.Implies(hm, an.Or(reach...), atoms); !ok {
+		r.Fail(f.Name+": healthy master filtered", c.P.Pos(app.List[0].Node.Pos()), "a partition that is the master of a Health replica group is not always selected: the selection also depends on other conditions (%s) — while a failed store's partitions are Offline and the new master is not installed yet the group drops out of reads and writes", diff)
+	}
+}
+
+// c05toleranceTimer — C05.R12.  The leader cuts the replication log behind a member that is down
+// only after the member has been down for ClearEntryLogTolerateTime, measured from
+// tolerateStartTime.  Seeing all members healthy ends the outage: the timer is reset there,
+// otherwise the next outage — however short — starts with an expired timer and the log a
+// just-killed member still needs is truncated at the first clean-up tick.
+func c05toleranceTimer(c *an.Ctx) {
+	const RC = "lib/raftconn"
+	r := c.Rule("C05.R12", "K-ORDER", RC+":(*RaftNode).forceDeleteEntryLog — the tolerance timer is reset on every path on which all members were found healthy")
+	f := fn(r, RC+":RaftNode.forceDeleteEntryLog")
+	if f == nil {
+		return
+	}
+	tfld := obj(r, RC+":RaftNode.tolerateStartTime")
+	if tfld == nil {
+		return
+	}
+	reset := f.Find(an.MNode("tolerateStartTime.Store(0)", func(g *an.Fn, m ast.Node) bool {
+		ce, ok := m.(*ast.CallExpr)
+		if !ok || len(ce.Args) != 1 {
+			return false
+		}
+		sel, ok := ce.Fun.(*ast.SelectorExpr)
+		if !ok || sel.Sel.Name != "Store" {
+			return false
+		}
+		inner, ok := ast.Unparen(sel.X).(*ast.SelectorExpr)
+		if !ok || g.Info.Uses[inner.Sel] != tfld {
+			return false
+		}
+		tv, ok := g.Info.Types[ce.Args[0]]
+		return ok && tv.Value != nil && tv.Value.String() == "0"
+	}))
+	r.AddSites(reset.Len())
+	if reset.Len() == 0 {
+		r.Fail(f.Name+": reset", c.P.Pos(f.Body.Pos()), "the tolerance timer is never reset")
+		return
+	}
+	edges := f.EdgesImplyingAny(an.AtomLike(`CheckAllRgMembers\(\)#0$`, true))
+	if len(edges) == 0 {
+		r.Fail(f.Name+": health test", c.P.Pos(f.Body.Pos()), "no branch on the result of CheckAllRgMembers; conditions present: %v", f.CondAtoms())
+		return
+	}
+	f.AfterEdgesMustPass(r, edges, reset, "all members healthy ⇒ tolerateStartTime reset before returning")
 }
